@@ -170,17 +170,17 @@ Section Top.
   Definition short : Prop := N.of_nat (length h) + 8 < USIZE_MAX.
 
   (* optimize() is the composition of its passes *)
-  Theorem optimize_sound : ix_ok -> short -> text_ok -> text_enc ->
-    forall u16 n n', optimize u16 n = Ok n' -> PRel false n n'.
+  Theorem optimize_with_sound : ix_ok -> short -> text_ok -> text_enc ->
+    forall fuel u16 n n', optimize_with fuel u16 n = Ok n' -> PRel false n n'.
   Proof.
-    intros (Hcur & Hdir) Hlen (Hk0 & Hk1 & Hk5 & Hk4 & Hcp & Hb1 & Hb2 & Hstep) (He1 & He2) u16 n n' E. unfold optimize in E.
-    destruct (run_to_fixpoint simplify_brackets PASS_FUEL n) as [e|n0] eqn:E0; [discriminate|]. cbn [bindR] in E.
-    destruct (run_to_fixpoint decat PASS_FUEL n0) as [e|n1] eqn:E1; [discriminate|]. cbn [bindR] in E.
-    destruct (run_to_fixpoint unroll_loops PASS_FUEL n1) as [e|n2] eqn:E2; [discriminate|]. cbn [bindR] in E.
-    destruct (run_to_fixpoint promote_1char_loops PASS_FUEL n2) as [e|n3] eqn:E3; [discriminate|]. cbn [bindR] in E.
-    destruct (if u16 then Ok n3 else run_to_fixpoint form_literal_bytes PASS_FUEL n3) as [e|n4] eqn:E4; [discriminate|].
+    intros (Hcur & Hdir) Hlen (Hk0 & Hk1 & Hk5 & Hk4 & Hcp & Hb1 & Hb2 & Hstep) (He1 & He2) fuel u16 n n' E. unfold optimize_with in E.
+    destruct (run_to_fixpoint simplify_brackets fuel n) as [e|n0] eqn:E0; [discriminate|]. cbn [bindR] in E.
+    destruct (run_to_fixpoint decat fuel n0) as [e|n1] eqn:E1; [discriminate|]. cbn [bindR] in E.
+    destruct (run_to_fixpoint unroll_loops fuel n1) as [e|n2] eqn:E2; [discriminate|]. cbn [bindR] in E.
+    destruct (run_to_fixpoint promote_1char_loops fuel n2) as [e|n3] eqn:E3; [discriminate|]. cbn [bindR] in E.
+    destruct (if u16 then Ok n3 else run_to_fixpoint form_literal_bytes fuel n3) as [e|n4] eqn:E4; [discriminate|].
     cbn [bindR] in E.
-    destruct (run_to_fixpoint remove_empties PASS_FUEL n4) as [e|n5] eqn:E5; [discriminate|]. cbn [bindR] in E.
+    destruct (run_to_fixpoint remove_empties fuel n4) as [e|n5] eqn:E5; [discriminate|]. cbn [bindR] in E.
     eapply PRel_trans; [eapply brackets_pass_sound; [exact Hk1|exact Hcp|exact Hb1|exact Hb2|exact E0]|].
     eapply PRel_trans; [eapply decat_pass_sound; exact E1|].
     eapply PRel_trans; [eapply unroll_pass_sound; [exact Hcur|exact Hdir|exact Hk0|exact Hlen|exact E2]|].
@@ -190,21 +190,27 @@ Section Top.
     eapply literal_pass_sound; [exact Hk0|exact Hk1|exact Hb1|exact Hb2|exact He1|exact He2|exact E4].
   Qed.
 
+  Theorem optimize_sound : ix_ok -> short -> text_ok -> text_enc ->
+    forall u16 n n', optimize u16 n = Ok n' -> PRel false n n'.
+  Proof. intros H1 H2 H3 H4 u16 n n' E. exact (optimize_with_sound H1 H2 H3 H4 PASS_FUEL u16 n n' E). Qed.
+
   (* the utf16 build compiles form_literal_bytes out: there the whole of optimize() is covered *)
-  Theorem optimize_sound_utf16_build : ix_ok -> short -> text_ok -> forall n n', optimize true n = Ok n' -> PRel false n n'.
+  Theorem optimize_with_sound_utf16_build : ix_ok -> short -> text_ok -> forall fuel n n', optimize_with fuel true n = Ok n' -> PRel false n n'.
   Proof.
-    intros (Hcur & Hdir) Hlen (Hk0 & Hk1 & Hk5 & Hk4 & Hcp & Hb1 & Hb2 & Hstep) n n' E. unfold optimize in E.
-    destruct (run_to_fixpoint simplify_brackets PASS_FUEL n) as [e|n0] eqn:E0; [discriminate|]. cbn [bindR] in E.
-    destruct (run_to_fixpoint decat PASS_FUEL n0) as [e|n1] eqn:E1; [discriminate|]. cbn [bindR] in E.
-    destruct (run_to_fixpoint unroll_loops PASS_FUEL n1) as [e|n2] eqn:E2; [discriminate|]. cbn [bindR] in E.
-    destruct (run_to_fixpoint promote_1char_loops PASS_FUEL n2) as [e|n3] eqn:E3; [discriminate|]. cbn [bindR] in E.
-    destruct (run_to_fixpoint remove_empties PASS_FUEL n3) as [e|n5] eqn:E5; [discriminate|]. cbn [bindR] in E.
+    intros (Hcur & Hdir) Hlen (Hk0 & Hk1 & Hk5 & Hk4 & Hcp & Hb1 & Hb2 & Hstep) fuel n n' E. unfold optimize_with in E.
+    destruct (run_to_fixpoint simplify_brackets fuel n) as [e|n0] eqn:E0; [discriminate|]. cbn [bindR] in E.
+    destruct (run_to_fixpoint decat fuel n0) as [e|n1] eqn:E1; [discriminate|]. cbn [bindR] in E.
+    destruct (run_to_fixpoint unroll_loops fuel n1) as [e|n2] eqn:E2; [discriminate|]. cbn [bindR] in E.
+    destruct (run_to_fixpoint promote_1char_loops fuel n2) as [e|n3] eqn:E3; [discriminate|]. cbn [bindR] in E.
+    destruct (run_to_fixpoint remove_empties fuel n3) as [e|n5] eqn:E5; [discriminate|]. cbn [bindR] in E.
     eapply PRel_trans; [eapply brackets_pass_sound; [exact Hk1|exact Hcp|exact Hb1|exact Hb2|exact E0]|].
     eapply PRel_trans; [eapply decat_pass_sound; exact E1|].
     eapply PRel_trans; [eapply unroll_pass_sound; [exact Hcur|exact Hdir|exact Hk0|exact Hlen|exact E2]|].
     eapply PRel_trans; [eapply promote_pass_sound; [exact Hstep|exact E3]|].
     eapply PRel_trans; [eapply empties_pass_sound; exact E5|eapply fails_pass_sound; [exact Hcp|exact E]].
   Qed.
+  Theorem optimize_sound_utf16_build : ix_ok -> short -> text_ok -> forall n n', optimize true n = Ok n' -> PRel false n n'.
+  Proof. intros H1 H2 H3 n n' E. exact (optimize_with_sound_utf16_build H1 H2 H3 PASS_FUEL n n' E). Qed.
 End Top.
 
 (* ---- what optimize() keeps, whatever the text: with no position counted as well-formed every text hypothesis and
@@ -221,9 +227,9 @@ Proof.
   - exact IHb.
 Qed.
 
-Theorem optimize_invariants : forall u16 n n', optimize u16 n = Ok n' -> qok n = true -> qok n' = true /\ ng n' = ng n.
+Theorem optimize_with_invariants : forall fuel u16 n n', optimize_with fuel u16 n = Ok n' -> qok n = true -> qok n' = true /\ ng n' = ng n.
 Proof.
-  intros u16 n n' E Hq.
+  intros fuel u16 n n' E Hq.
   assert (Hi : ix_ok ascii_indexer) by (split; [exact ascii_cursor|exact ascii_dir]).
   assert (Hs : short []) by reflexivity.
   assert (Ht : text_ok ascii_indexer false [] (fun _ => False)).
@@ -231,6 +237,8 @@ Proof.
     split; [intros fwd q []|]. split; [intros fwd q []|]. intros body fwd s q q' _ []. }
   assert (He : text_enc ascii_indexer [] (fun _ => False)).
   { split; [intros fwd q c []|intros fwd q c e []]. }
-  destruct (optimize_sound ascii_indexer false false [] (fun _ => False) Hi Hs Ht He u16 n n' E Hq (al_nowhere _ _ _ _ n)) as (_ & Q & _ & N).
+  destruct (optimize_with_sound ascii_indexer false false [] (fun _ => False) Hi Hs Ht He fuel u16 n n' E Hq (al_nowhere _ _ _ _ n)) as (_ & Q & _ & N).
   split; assumption.
 Qed.
+Theorem optimize_invariants : forall u16 n n', optimize u16 n = Ok n' -> qok n = true -> qok n' = true /\ ng n' = ng n.
+Proof. intros u16 n n' E. exact (optimize_with_invariants PASS_FUEL u16 n n' E). Qed.
